@@ -129,7 +129,8 @@ CHECKS = {
              "field_optimization_*: termination within a line-event budget, boreholes inside the outline and outside zones, "
              "minimum spacing, exact lattice on axis-aligned rectangles, optimiser = first best rotation, rigid translation. "
              "Sampling. Four input-side weak spots of RowWise are recorded as known findings (KF-C14-1..4) and excluded by "
-             "signature; two non-termination defects were repaired.",
+             "signature (KF-C14-1 only for failures that do not depend on the listing order of the zones); two non-termination "
+             "defects were repaired.",
         note="Fuel budget 2e6 + 40 n^2 line events (>= 100x terminating runs); floor() knife edges excluded by perturbing the "
              "spacing by 1e-9; lots narrower than 1.3 spacings are outside the domain.",
         ref="DESIGN.md section 3 C14",
@@ -172,7 +173,8 @@ CHECKS = {
         technique="Hypothesis PBT over design outcomes (stratified over method x outcome class x continue); oracle: arithmetic identities + fresh-object re-simulation of the reported design",
         text="For completed runs in all four outcome classes: borehole count vs coordinate rows, total drilling, reported "
              "max/min EFT (JSON and text summary) vs a fresh simulation of the reported field at the reported height (1e-3 K), "
-             "search-log rows vs the excess formula.",
+             "search-log rows vs the excess formula; the selected GHE sized again with the hourly method (12-month horizons) and "
+             "reported through OutputManager vs a fresh hourly simulation.",
         note="L2 seam for the bulk, a few L3 runs; fresh simulation follows the tool's documented pipeline.",
         ref="DESIGN.md section 3 C12",
     ),
@@ -190,7 +192,7 @@ CHECKS = {
         technique="Hypothesis PBT; round trip through the command-line loader + independent jsonschema validation + differential design run",
         text="Generated configurations of all six geometry methods (RowWise with/without perimeter ratio), four pipe "
              "arrangements, five fluids, optional cap/continue flag: the written file validates (tool's verdict and an "
-             "independent section-by-section jsonschema pass), reloading it through _run_manager_from_cli_worker and writing "
+             "independent section-by-section jsonschema pass) and records the values given to the setters, reloading it through _run_manager_from_cli_worker and writing "
              "again gives the same document (numbers to 1e-9), and the API-built and file-loaded managers give bit-identical "
              "designs (L2 seam).",
         note="find_design / prepare_results / write_output_files are stubbed in the check process to capture the loaded manager; "
